@@ -55,9 +55,9 @@ Definition fully_robust (K : table) (G1 G2 : list nat) : bool :=
   forallb (fun x => forallb (fun y => robust_arc K x y) G2) G1.
 
 Fixpoint merge_at (P : ranking) (i : nat) : ranking :=
-  match P, i with
-  | g1 :: g2 :: P', O => (g1 ++ g2) :: P'
-  | g :: P', S i' => g :: merge_at P' i'
+  match i, P with
+  | O, g1 :: g2 :: P' => (g1 ++ g2) :: P'
+  | S i', g :: P' => g :: merge_at P' i'
   | _, _ => P
   end.
 
